@@ -13,6 +13,7 @@ mod engines {
 	pub mod input;
 	pub mod json;
 	pub mod tomlorder;
+	pub mod stream;
 }
 mod props {
 	pub mod c01;
@@ -26,7 +27,9 @@ mod props {
 	pub mod c07;
 	pub mod c11;
 	pub mod c09;
+	pub mod c05;
 }
+mod alloc;
 mod corpus;
 mod gen;
 mod out;
@@ -36,6 +39,9 @@ mod xtapi;
 
 use out::Out;
 use util::Rng;
+
+#[global_allocator]
+static GLOBAL: alloc::Counting = alloc::Counting;
 
 fn main() {
 	let args: Vec<String> = std::env::args().collect();
@@ -87,6 +93,10 @@ fn main() {
 				engines::input::run(&mut out, &mut rng.fork(), thorough);
 				props::c09::run(&mut out, &mut rng.fork(), thorough);
 			}
+			"C05" => {
+				engines::stream::run(&mut out, &mut rng.fork(), thorough);
+				props::c05::run(&mut out, &mut rng.fork(), thorough);
+			}
 			// Development entry for the JSON model slice (not a property id).
 			"JSONDEV" => {
 				engines::json::run(&mut out, &mut rng.fork(), thorough);
@@ -130,6 +140,17 @@ fn main() {
 		let inputs: Vec<_> = args[5].split('/').map(|h| (util::unhex(h).expect("hex"), supply.clone(), from)).collect();
 		let (results, out) = xtapi::translate_many(&inputs, to);
 		println!("results={results:?}\noutput={}\ntext={:?}", util::hex(&out), String::from_utf8_lossy(&out));
+		return;
+	}
+	if args.len() >= 6 && args[1] == "trace" {
+		// xtverif trace <from|auto> <to> <packet-bytes|0> <hex>: the read/write trace of one translation.
+		let from = xtapi::Fmt::from_name(&args[2]);
+		let to = xtapi::Fmt::from_name(&args[3]).expect("to");
+		let p: usize = args[4].parse().expect("packet size");
+		let data = std::rc::Rc::new(util::unhex(&args[5]).expect("hex"));
+		let packets = if p == 0 { engines::stream::Packets::All } else { engines::stream::Packets::Every(p) };
+		let r = engines::stream::run_real(&data, &packets, from, to);
+		println!("result={:?} written={}\ntrace={}", r.result, r.written, engines::stream::trace_field(&r.trace));
 		return;
 	}
 	if args.len() >= 2 && args[1] == "probe-transient" {
